@@ -481,9 +481,23 @@ impl<'source> CodeGenerator<'source> {
                 self.add(Instruction::PushWith);
                 self.compile_expr(&from_import.expr);
                 self.add_with_span(Instruction::Include(false), from_import.span());
+                // the names are taken from what the imported template defined
+                // at its top level (the locals of the frame pushed above), not
+                // from the scopes of the importing template.
+                self.add(Instruction::LoadConst(Value::UNDEFINED));
+                self.add(Instruction::ExportLocals);
                 for (name, _) in &from_import.names {
-                    self.compile_expr(name);
+                    self.add(Instruction::DupTop);
+                    match name {
+                        ast::Expr::Var(var) => {
+                            self.set_line_from_span(var.span());
+                            self.add(Instruction::GetAttr(var.id));
+                        }
+                        _ => unreachable!(),
+                    }
+                    self.add(Instruction::Swap);
                 }
+                self.add(Instruction::DiscardTop);
                 self.add(Instruction::PopFrame);
                 for (name, alias) in from_import.names.iter().rev() {
                     self.compile_assignment(alias.as_ref().unwrap_or(name));
